@@ -293,7 +293,11 @@ func (w *worker) run(j Job, wallLimit time.Duration) Result {
 		w.cmd.Process.Kill()
 		w.cmd.Wait()
 		w.alive = false
-		return Result{Scenario: j.Scenario, Seed: j.Seed, crashed: true, crashOut: "WATCHDOG: no result within " + wallLimit.String() + "\n" + w.errb.String()}
+		out := "WATCHDOG: no result within " + wallLimit.String() + "\n" + w.errb.String()
+		// keep the stack dump: the one-line harness message does not show it
+		dump := filepath.Join(os.TempDir(), fmt.Sprintf("verif-watchdog-%s-%d.txt", j.Scenario, j.Seed))
+		os.WriteFile(dump, []byte(out), 0o644)
+		return Result{Scenario: j.Scenario, Seed: j.Seed, crashed: true, crashOut: "WATCHDOG: no result within " + wallLimit.String() + " (stacks: " + dump + ")\n" + w.errb.String()}
 	}
 }
 
